@@ -287,7 +287,45 @@ Section Publish.
     destruct (run_crash pubprog w o n) as [[[w' o'] tr] b]. destruct H as (s' & HI & _).
     destruct s'; cbn [pw_inv] in HI; tauto.
   Qed.
+
+  (** Whatever the outcome and with any fault, when the run ends: old binding,
+      nothing, or the source's inode (the source may even be missing).  Stated for
+      any program the monitor accepts. *)
+  Theorem publish_any_gen {A} (p : prog A) Q w o : wpv pw_step p Q Before -> names_plain (w_fs w) ->
+    (name_of (w_fs w) v = Some i0 \/ name_of (w_fs w) v = None) -> name_of (w_fs w) dst = j0 ->
+    let '(_, w', _, _) := run p w o in
+    name_of (w_fs w') dst = j0 \/ name_of (w_fs w') dst = None \/ name_of (w_fs w') dst = Some i0.
+  Proof.
+    intros Hp Hpl Hv0 Hj.
+    assert (HI0 : pw_inv false Before (w_fs w)) by (cbn [pw_inv]; auto).
+    pose proof (sane_run pw_step p Q Before (pw_inv false) Hp
+                  (fun s ev s' f f' Hm H1 _ HI => pw_inv_step false s ev s' f f' Hm H1 (fun H => ltac:(discriminate H)) HI) w o Hpl HI0) as H.
+    destruct (run p w o) as [[[r w'] o'] tr]. destruct H as (s' & _ & HI & _).
+    destruct s'; cbn [pw_inv] in HI; tauto.
+  Qed.
+
+  (** [set_binds_under_faults] without assuming that the source exists. *)
+  Theorem set_binds_weak_gen {X} (p : prog (outcome X)) w o :
+    wpv pw_step p (fun r s' => is_ok r = true -> s' <> Before) Before ->
+    which = true -> names_plain (w_fs w) ->
+    (name_of (w_fs w) v = Some i0 \/ name_of (w_fs w) v = None) -> name_of (w_fs w) dst = j0 ->
+    let '(r, w', _, _) := run p w o in
+    is_ok r = true -> name_of (w_fs w') dst = Some i0.
+  Proof.
+    intros Hp Hw Hpl Hv0 Hj.
+    pose (J := fun (s : pst) (f : fs) => pw_inv false s f /\ s <> Existed).
+    assert (HJ0 : J Before (w_fs w)) by (unfold J; cbn [pw_inv]; split; [auto|discriminate]).
+    assert (Hstep : forall s ev s' f f', pw_step s ev = Some s' -> step1 f ev f' -> names_plain f -> J s f -> J s' f').
+    { intros s ev s' f f' Hm H1 _ (HI & Hne). split; [exact (pw_inv_step false s ev s' f f' Hm H1 (fun H => ltac:(discriminate H)) HI)|].
+      destruct ev as [c r| | | | | ]; cbn [pw_step] in Hm; try (injection Hm as <-; exact Hne).
+      destruct (is_pubw c); [|destruct (cls s c); [injection Hm as <-; exact Hne|discriminate]].
+      injection Hm as <-. destruct s; [|discriminate|congruence]. destruct r; try discriminate. rewrite Hw. cbn [negb andb]. discriminate. }
+    pose proof (sane_run pw_step p _ Before J Hp Hstep w o Hpl HJ0) as H.
+    destruct (run p w o) as [[[r w'] o'] tr]. destruct H as (s' & HQ & (HI & Hne) & _).
+    intros Hok. specialize (HQ Hok). destruct s'; [congruence|exact (proj1 HI)|congruence].
+  Qed.
 End Publish.
+
 
 (** * The temp-file API of the stack over a plain write cache *)
 Section TempApi.
